@@ -141,6 +141,9 @@ func genDst(r *RNG) int {
 	if r.P(1, 3) {
 		return 0
 	}
+	if r.P(1, 10) {
+		return -(0x30 + r.Intn(4)) // straight into storage: visible in the post-state
+	}
 	return 1 + r.Intn(0x1c0)
 }
 
@@ -170,6 +173,10 @@ func (g *genCtx) callGas(r *RNG) string {
 	case 4:
 		return hxu(uint64(20000 + r.Intn(60000)))
 	default:
+		if r.Bool() {
+			// beyond 64 bits with small low bits: must be capped like any other huge request
+			return pick(r, []string{"0x10000000000000000", "0x100000000000003e8", "0x100000000000000000000000000000000", "0x8000000000000000000000000000000000000000000000000000000000000000", "0x1000000000000c350"})
+		}
 		return genVal(r)
 	}
 }
@@ -235,6 +242,17 @@ func (g *genCtx) genPrecompileCall(r *RNG) []Macro {
 	}
 	ms = append(ms, Macro{K: "call", Op: kind, A: []string{g.callGas(r), hxu(uint64(p)), "0x0", "0x200", hxu(uint64(len(in))), "0x400", hxu(uint64(r.Intn(0x100)))},
 		Flag: "m:" + hxu(uint64(r.Intn(0x100)))})
+	if forkAtLeast(g.fork, "Byzantium") && r.P(1, 3) {
+		// the return-data buffer is the callee's own copy: overwrite the memory the input came
+		// from, then read the buffer back and make it observable
+		n := "0x20"
+		if p == 4 && len(in) < 32 {
+			n = hxu(uint64(len(in)))
+		}
+		ms = append(ms, Macro{K: "op", Op: "MSTORE", A: []string{"0x200", genVal(r)}},
+			Macro{K: "op", Op: "RETURNDATACOPY", A: []string{"0x600", "0x0", n}},
+			Macro{K: "op", Op: "LOG0", A: []string{"0x600", "0x20"}})
+	}
 	return ms
 }
 
@@ -313,6 +331,37 @@ type progBuilder struct {
 
 var curProg *Program
 
+var sweepPos = []string{"0x0", "0x1", "0x7", "0x8", "0x1e", "0x1f", "0x20", "0xff", "0x100", "0x101", "0x10000000000000000", "0xffffffffffffffffffffffffffffffffffffffffffffffffffffffffffffffff"}
+var sweepVal = []string{"0x0", "0x1", "0x2", "0x80", "0xff", "0x7fffffffffffffffffffffffffffffffffffffffffffffffffffffffffffffff",
+	"0x8000000000000000000000000000000000000000000000000000000000000000", "0xffffffffffffffffffffffffffffffffffffffffffffffffffffffffffffffff"}
+
+// boundarySweep: one arithmetic / bit instruction on several operand tuples taken from the
+// edges of its domain (word size, sign bit, zero), every result kept in memory or storage.
+func (g *genCtx) boundarySweep(r *RNG) []Macro {
+	op := g.pickOp(r, []opAvail{{"SHL", "Constantinople"}, {"SHR", "Constantinople"}, {"SAR", "Constantinople"}, {"BYTE", ""}, {"SIGNEXTEND", ""},
+		{"SDIV", ""}, {"SMOD", ""}, {"ADDMOD", ""}, {"MULMOD", ""}, {"EXP", ""}, {"DIV", ""}, {"MOD", ""}, {"SLT", ""}, {"SGT", ""}})
+	var ms []Macro
+	n := 4 + r.Intn(4)
+	for i := 0; i < n; i++ {
+		a := make([]string, opTable[op].pops)
+		for k := range a {
+			a[k] = pick(r, sweepVal)
+		}
+		switch op {
+		case "SHL", "SHR", "SAR", "BYTE", "SIGNEXTEND":
+			a[0] = pick(r, sweepPos)
+		case "EXP":
+			a[1] = pick(r, []string{"0x0", "0x1", "0x2", "0xff", "0x100", "0xffff", "0x10000"})
+		}
+		dst := 0x101 + 32*i
+		if r.P(1, 4) {
+			dst = -(0x38 + i%4)
+		}
+		ms = append(ms, Macro{K: "op", Op: op, A: a, Dst: dst})
+	}
+	return ms
+}
+
 func (g *genCtx) genMacro(r *RNG, depth int) []Macro {
 	w := r.Intn(100)
 	if g.noIntro {
@@ -332,6 +381,9 @@ func (g *genCtx) genMacro(r *RNG, depth int) []Macro {
 	}
 	switch {
 	case w < 22:
+		if r.P(1, 4) {
+			return g.boundarySweep(r)
+		}
 		op := g.pickOp(r, arithOps)
 		n := opTable[op].pops
 		a := make([]string, n)
@@ -340,6 +392,23 @@ func (g *genCtx) genMacro(r *RNG, depth int) []Macro {
 		}
 		if op == "EXP" && r.P(2, 3) {
 			a[1] = hxu(uint64(r.Intn(300)))
+		}
+		switch op {
+		case "SHL", "SHR", "SAR", "BYTE", "SIGNEXTEND":
+			if r.Bool() {
+				// (position, value) pairs around the word size and the sign bit
+				a[0] = pick(r, []string{"0x0", "0x1", "0x7", "0x8", "0x1e", "0x1f", "0x20", "0xff", "0x100", "0x101", "0x10000000000000000", "0xffffffffffffffffffffffffffffffffffffffffffffffffffffffffffffffff"})
+				a[1] = pick(r, []string{"0x0", "0x1", "0x80", "0xff", "0x7fffffffffffffffffffffffffffffffffffffffffffffffffffffffffffffff",
+					"0x8000000000000000000000000000000000000000000000000000000000000000",
+					"0xffffffffffffffffffffffffffffffffffffffffffffffffffffffffffffffff", hx(r.Bytes(32))})
+			}
+		case "SDIV", "SMOD", "DIV", "MOD", "ADDMOD", "MULMOD":
+			if r.P(1, 3) {
+				for i := range a {
+					a[i] = pick(r, []string{"0x0", "0x1", "0x2", "0x8000000000000000000000000000000000000000000000000000000000000000",
+						"0xffffffffffffffffffffffffffffffffffffffffffffffffffffffffffffffff", "0x7fffffffffffffffffffffffffffffffffffffffffffffffffffffffffffffff", hx(r.Bytes(32))})
+				}
+			}
 		}
 		return []Macro{{K: "op", Op: op, A: a, Dst: genDst(r)}}
 	case w < 30:
@@ -437,6 +506,17 @@ func (g *genCtx) genMacro(r *RNG, depth int) []Macro {
 		}
 		cm := g.genCreate(r, curProg, depth)
 		ms := []Macro{cm}
+		if cm.Op == "CREATE2" && r.P(1, 4) {
+			// the same salt and init code again: an address collision (which still consumes the
+			// creator's nonce), then a CREATE whose address shows which nonce the creator is at
+			again := cm
+			again.Flag = "s:" + hxu(uint64(0x24+r.Intn(2)))
+			next := cm
+			next.Op = "CREATE"
+			next.Flag = "s:" + hxu(uint64(0x26+r.Intn(2)))
+			ms = append(ms, again, next)
+			g.nCreates += 2
+		}
 		if g.self != "" && depth == 0 {
 			if cm.Op == "CREATE" && r.P(1, 2) {
 				// touch the address the create was aimed at (warm even if the create failed)
@@ -540,6 +620,11 @@ func (g *genCtx) genProgram(r *RNG, n int) *Program {
 	for i := 0; i < n; i++ {
 		p.M = append(p.M, g.genMacro(r, 0)...)
 	}
+	if !g.noIntro && r.Bool() {
+		// observer: fold the memory region the result sinks write to into storage, so that a
+		// wrong intermediate value reaches the post-state even if the program never returns it
+		p.M = append(p.M, Macro{K: "op", Op: "KECCAK256", A: []string{"0x0", "0x200"}, Dst: -0x3e})
+	}
 	if r.P(3, 4) {
 		p.M = append(p.M, g.genTerm(r))
 	}
@@ -598,7 +683,9 @@ func genStdScenario(seed uint64, prop string, maxFork string) *Scenario {
 		if r.Bool() {
 			a.Storage = map[string]string{}
 			for k := 0; k < r.Intn(4); k++ {
-				a.Storage[genSlot(r)] = genVal(r)
+				// often a value the program's SSTOREs also use, so that a slot can be changed and
+				// then set back to its committed value within one transaction (net metering)
+				a.Storage[genSlot(r)] = pick(r, []string{"0x1", "0x2", "0x1", genVal(r)})
 			}
 		}
 		sc.Accounts = append(sc.Accounts, a)
@@ -653,6 +740,22 @@ func genStdScenario(seed uint64, prop string, maxFork string) *Scenario {
 			{K: "op", Op: "SLOAD", A: []string{slot}, Dst: 0x61},
 		}
 		sc.Accounts[first].Code.M = append(pre, sc.Accounts[first].Code.M...)
+	}
+	if nc >= 3 && forkAtLeast(sc.Fork, "Homestead") && r.P(1, 8) {
+		// delegation chain: what CALLER / ADDRESS / CALLVALUE are two code-borrowing levels down
+		first := len(sc.Accounts) - nc
+		k1 := pick(r, []string{"DELEGATECALL", "DELEGATECALL", "CALLCODE", "CALL"})
+		k2 := pick(r, []string{"DELEGATECALL", "DELEGATECALL", "CALLCODE"})
+		mk := func(kind, to string) Macro {
+			if kind == "DELEGATECALL" {
+				return Macro{K: "call", Op: kind, A: []string{"GAS", to, "0x0", "0x0", "0x0", "0x0"}, Flag: "m:0x20"}
+			}
+			return Macro{K: "call", Op: kind, A: []string{"GAS", to, hxu(uint64(r.Intn(3))), "0x0", "0x0", "0x0", "0x0"}, Flag: "m:0x20"}
+		}
+		leaf := []Macro{{K: "op", Op: "CALLER", Dst: -0x34}, {K: "op", Op: "ADDRESS", Dst: -0x35}, {K: "op", Op: "CALLVALUE", Dst: -0x36}}
+		sc.Accounts[first+2].Code.M = append(leaf, sc.Accounts[first+2].Code.M...)
+		sc.Accounts[first+1].Code.M = append([]Macro{mk(k2, sc.Accounts[first+2].Addr)}, sc.Accounts[first+1].Code.M...)
+		sc.Accounts[first].Code.M = append([]Macro{mk(k1, sc.Accounts[first+1].Addr)}, sc.Accounts[first].Code.M...)
 	}
 	ntx := 1 + r.Intn(3)
 	var ex Exec
